@@ -40,7 +40,9 @@ PROPS["C07"] = {
     "level": "proof",
     "verus": {"column": ["Column::is_valid_value"]},
     "assumptions": [
-        "Category::validate is an uninterpreted predicate cat_ok(category, string) (trusted contract): the category grammars themselves are NOT verified",
+        "Column::is_valid_value is proved against valid_spec with Category::validate IMPORTED as r == cat_ok(category, string); that contract is proved in group category, where cat_ok is the documented grammar of each category",
+        "group category: the real Category::validate is proved to answer, for EVERY string and without panicking (incl. the byte slice in the GUID arm), exactly the documented grammar: identifier, property (at most one leading '%'), upper/lower case, GUID (38 bytes, braces, no lower-case letter, the inside a UUID), version (at most four '.'-separated pieces, each a 16-bit number), language list (','-separated 16-bit numbers), cabinet ('#' + identifier, or 1..8 bytes then optionally the LAST '.' and at most 3 bytes), 16/32-bit integer text. TRUSTED: the std string calls are shims whose body is the original call and whose contract is stated in prelude/catshim.rs (chars().any, starts_with/contains with a closure or a char, strip_prefix, split -- a model of core::str::Split --, rsplitn(2,..).collect, split_once/rsplit_once, str slicing with its character-boundary precondition, Vec::reverse, len); std's integer parsers (parse::<i16|i32|u16>) and the uuid crate's parser are uninterpreted total predicates of the text, so WHICH digit strings are numbers is std's answer, not checked here; closures carry the contract 'result == own body' (rule X13)",
+        "NOT covered: 'the values the library itself builds from a UUID or a non-empty language list are valid for the GUID and language categories' (needs the uuid crate's formatter)",
     ],
 }
 
@@ -179,12 +181,13 @@ PROPS["C01"]["verus"]["serial"] = SERIAL_FNS
 PROPS["C08"]["verus"]["serial"] = SERIAL_FNS
 
 PROPS["C10"]["verus"]["readers"] = ["vx_read_whole", "PropertyValue::read", "PropertySet::read", "PropertyValue::minimum_version", "Timestamp::read_from",
-                                    "lemma_pv_pair", "lemma_pv_pair_small", "lemma_pv_pair_i1", "lemma_pv_pair_i2", "lemma_pv_pair_str", "lemma_pv_pair_time", "lemma_le32_rt", "lemma_le16_rt", "lemma_u64_halves", "lemma_i16_rt", "lemma_i32_rt", "lemma_i8_rt"]
+                                    "lemma_pv_pair", "lemma_pv_pair_small", "lemma_pv_pair_i1", "lemma_pv_pair_i2", "lemma_pv_pair_str", "lemma_lpstr_layout", "lemma_pv_pair_time", "lemma_le32_rt", "lemma_le16_rt", "lemma_u64_halves", "lemma_i16_rt", "lemma_i32_rt", "lemma_i8_rt"]
 PROPS["C19"]["verus"]["queryfmt"] = ["Delete::fmt", "Insert::fmt", "Update::fmt", "Join::fmt", "Select::format_for_join", "Select::fmt"]
+PROPS["C07"]["verus"]["category"] = ["Category::validate", "lemma_blen_nonneg", "lemma_blen_empty", "lemma_blen_ends", "lemma_last_of"]
 PROPS["C10"]["verus"]["propset"] = SUMMARY_FNS + ["lemma_in_step_set_codepage", "lemma_in_step_insert", "lemma_in_step_remove"]
 PROPS["C10"]["verus"]["pspair"] = ["theorem_save_reopen", "lemma_ps_pair", "lemma_ps_cp", "lemma_ps_entry", "lemma_ps_header", "lemma_tab_at",
                                    "lemma_le32_at", "lemma_es_upto_mono", "lemma_in_step_entries", "lemma_read_in_step", "lemma_written_witness", "lemma_pair_witness",
-                                   "lemma_pv_pair", "lemma_pv_pair_small", "lemma_pv_pair_i1", "lemma_pv_pair_i2", "lemma_pv_pair_str", "lemma_pv_pair_time"]
+                                   "lemma_pv_pair", "lemma_pv_pair_small", "lemma_pv_pair_i1", "lemma_pv_pair_i2", "lemma_pv_pair_str", "lemma_lpstr_layout", "lemma_pv_pair_time"]
 PROPS["C10"]["verus"]["serial"] = ["vx_write_from_start", "lemma_upto_same", "lemma_header_tail", "PropertyValue::encoded_size_including_padding", "PropertyValue::write", "Timestamp::write_to", "lemma_pad",
                                     "PropertySet::write", "PropertyValue::minimum_version", "PropertyFormatVersion::version_number",
                                     "lemma_off_aligned", "lemma_pad4_mod", "lemma_size_nonneg", "lemma_size_mono", "lemma_append_keeps", "lemma_prefix_keeps", "vx_btree_iter"]
